@@ -109,9 +109,18 @@ def cli_outputs(case):
         in_fmt = case.get("in_fmt", "tpf")
         out_fmt = case.get("out_fmt", "agp")
         inp = d / f"input.{in_fmt}"
-        inp.write_text(remap.input_text(case, in_fmt))
         mp = d / "map.agp"
-        mp.write_text(remap.map_agp_text(case))
+        if case.get("latin1_names"):
+            # contig and scaffold names with Latin-1 letters, files written in that encoding (not valid UTF-8):
+            # the run may refuse them, it must not invent names
+            tr = lambda n: n.replace("c", "c\xe9", 1) if n.startswith("c") else n + "\xe8"  # noqa: E731
+            case = dict(case, input=[[tr(n), [[r[0], tr(r[1]), *r[2:]] if r[0] == "F" else r for r in rows]] for n, rows in case["input"]],
+                        map=[[pn, [[r[0], tr(r[1]), *r[2:]] if r[0] == "F" else r for r in rows]] for pn, rows in case["map"]])
+            inp.write_text(remap.input_text(case, in_fmt), encoding="latin-1")
+            mp.write_text(remap.map_agp_text(case), encoding="latin-1")
+        else:
+            inp.write_text(remap.input_text(case, in_fmt))
+            mp.write_text(remap.map_agp_text(case))
         out = d / "out" / f"x.1.{out_fmt}"
         out.parent.mkdir()
         args = ["-a", inp, "-p", mp, "-o", out, "-c", case.get("prefix", "SUPER_")]
@@ -127,10 +136,15 @@ def cli_outputs(case):
         scaffolds = []
         reader = ref.read_agp if out_fmt == "agp" else ref.read_tpf
         n_files = 0
+        latin1 = bool(case.get("latin1_names"))
+        back = lambda n: ("c" + n[2:]) if n.startswith("c\xe9") else (n[:-1] if n.endswith("\xe8") else n)  # noqa: E731
         for f in sorted(out.parent.iterdir()):
             if f.name.endswith("." + out_fmt):
                 n_files += 1
-                scaffolds.extend(reader(f.read_text())[1])
+                got = reader(f.read_text(encoding="latin-1") if latin1 else f.read_text())[1]
+                if latin1:
+                    got = [[n, [[r[0], back(r[1]), *r[2:]] if r[0] == "F" else r for r in rows]] for n, rows in got]
+                scaffolds.extend(got)
         if n_files == 0:
             raise Violation("CLI exited 0 but wrote no assembly file")
         return scaffolds
@@ -162,6 +176,8 @@ def cases(draw, cli=False):
         case["out_fmt"] = draw(st.sampled_from(["agp", "tpf"]))
         if draw(st.integers(0, 5)) == 0:
             case["optimize"] = True
+        elif draw(st.integers(0, 5)) == 0:
+            case["latin1_names"] = True
     elif draw(st.integers(0, 9)) == 0:
         case["debug_log"] = True
     return case
@@ -174,7 +190,7 @@ def tagged_cli_cases(draw):
     if mode == 0:
         c = draw(gen.tagged_case(max_scaffolds=6, max_contigs=4, two_haplotypes=True, primary_mode=True, unprefixed_in_primary=True, piece_tag_weight=4))
     elif mode == 1:
-        c = draw(gen.tagged_case(max_scaffolds=5, max_contigs=4, two_haplotypes=True, primary_mode=False, piece_tag_weight=4))
+        c = draw(gen.tagged_case(max_scaffolds=5, max_contigs=4, two_haplotypes=True, primary_mode=False, piece_tag_weight=4, odd_haplotype_names=True))
     else:
         c = draw(gen.tagged_case(max_scaffolds=5, max_contigs=4, two_haplotypes=False, piece_tag_weight=3))
     c["kind"] = ["primary_mode", "two_haplotypes", "single_haplotype_tagged"][mode]
